@@ -521,7 +521,7 @@ func (c *converter) Copy(destination string, source string, valueUsed bool, glob
 	c.sliceCopyHelperRequired = true
 
 	helper := c.nextHelperVar()
-	c.VarAssignment(helper, c.sliceLenString(c.varEvaluationString(destination, true)), false)
+	c.VarAssignment(helper, c.sliceLenString(source), false) // Every element of the source has been copied.
 
 	return c.varEvaluationString(helper, false), nil
 }
